@@ -335,6 +335,9 @@ def make_self(model, adaptive, step_log):
              "bm": opaque_call("BM"), "sde": Obj("sde", attrs=dict({m: opaque_call("SDE." + m) for m in SDE_METHODS},
                                                            noise_type=Opaque("declared noise type"),
                                                            sde_type=Opaque("declared sde type")))}
+    from .solverkit import literal_slots
+    for k, v in literal_slots(model, cls).items():
+        attrs.setdefault(k, v)
     return Obj("solver", cls=cls, attrs=attrs)
 
 
